@@ -1,5 +1,6 @@
 """C17 - a dataset stays structurally consistent and announces every structural change."""
 PROPERTY = 'C17'
+THOROUGH_SEEDS = 1      # the thorough enumeration of this driver is already minutes long
 LEVEL = 'proof'
 DEDUCTIVE = ['contracts.c17_data']
 BUDGET_S = {'quick': 20.0, 'thorough': 60.0}
